@@ -37,7 +37,23 @@ def gen_case(seed, idx, tier):
         c.skip = "no-valid-line"
         return c
     nsp = 6 if tier == "quick" else 16
-    c.meta.update(cfg=cfg, uses=uses, argvs=[], exp=argh.expected(cfg, uses))
+    exp = argh.expected(cfg, uses)
+    # optional tail: a multi-value list given as separate words, ended by a value-less flag, followed by a free value for
+    # the positional argument - all legal, all documented (setTakesMultiValue / "-" key)
+    tail = []
+    if rng.random() < 0.25 and not (cfg.flags & argh.HF["noAbbr"] and False):
+        mv = argh.Arg("vi9", None, "zz-multi-values")
+        mv.multi, mv.init = True, []
+        qf = argh.Arg("b9", None, "zz-quiet-flag")
+        qf.init = "0"
+        pa = argh.Arg("s9", None, None, spec="-")
+        pa.init = "none"
+        cfg.args += [mv, qf, pa]
+        vals = [str(rng.randint(0, 99)) for _ in range(rng.randint(1, 3))]
+        free = rng.choice(["out.txt", "7", "x"])
+        tail = ["--zz-multi-values"] + vals + ["--zz-quiet-flag", free]
+        exp.update({"vi9": [int(v) for v in vals], "b9": True, "s9": free})
+    c.meta.update(cfg=cfg, uses=uses, argvs=[], exp=exp, tail=bool(tail))
     seen = set()
     for k in range(nsp):
         style = STYLES[k] if k < len(STYLES) else {}
@@ -46,6 +62,7 @@ def gen_case(seed, idx, tier):
             words, st = argh.spell_line(cfg, order, rng, style)
         except argh.ModelAbstain:
             continue
+        words = words + tail
         key = "\x00".join(words)
         if key in seen:
             continue
@@ -82,6 +99,8 @@ def judge(c, results, rep):
     tags = rule_tags(cfg)
     for t in tags:
         rep.stat("rule." + t)
+    if c.meta.get("tail"):
+        rep.stat("tail.multi-values_flag_positional")
     for (sid, text), (words, st, order) in zip(c.scenarios, c.meta["argvs"]):
         r = results[sid]
         for k, v in st.items():
@@ -107,7 +126,7 @@ def judge(c, results, rep):
             got = argh.parse_dump(a.slot, r.slots.get(a.slot, "?"))
             if not argh.values_equal(a.slot, got, exp[a.slot]):
                 bad += 1
-                usedhere = any(u.arg is a for u in uses)
+                usedhere = any(u.arg is a for u in uses) or a.slot in ("vi9", "b9", "s9")
                 rep.viol("%s|%s" % ("wrong-value" if usedhere else "unused-changed", argh.cat_of(a.slot)),
                          "slot %s (%s) = %r, expected %r | uses=%r argv=%r" % (a.slot, a.keyspec(), got, exp[a.slot], order, words), [text])
         if not bad:
